@@ -68,6 +68,7 @@ Theorem C22_source_facts :
   gen_owner_is_expected_then_control_peer_then_first_sender = true /\
   gen_replies_go_to_recorded_client = true /\
   gen_expected_set_only_for_specified_request_address = true /\
-  gen_association_gets_control_connection = true.
+  gen_association_gets_control_connection = true /\
+  gen_request_address_bytes_are_not_shared = true.
 Proof. repeat split; reflexivity. Qed.
 Print Assumptions C22_source_facts.
